@@ -2,7 +2,7 @@
    printed by harness/h10.  Each [check_*] returns the cases on which model and implementation
    disagree (with the position of the first difference and the model's answer); the driver
    expects []. *)
-From Syntax Require Import Lexer Green.
+From Syntax Require Import Lexer Green TokenStream.
 
 Definition s2l := str_of_string.   (* used only for printable-ASCII texts: bytes = code points *)
 Definition tv := Build_trivium.
@@ -86,3 +86,80 @@ Definition check_tree (cs : list tree_case) : list (N * N * N) :=
     if ok1 && ok2 && ok3 && ok4 then []
     else [(k, (if ok1 then 0 else 1) + (if ok2 then 0 else 2) + (if ok3 then 0 else 4)
               + (if ok4 then 0 else 8), green_width g)]) (indexed 0 cs).
+
+(* ---- leg 3: the real parser's token-plumbing op log (hook in parser.rs) replayed through
+   TokenStream.v: before every operation the real (offset, current_width, last_trivia_length,
+   #pending_trivia, #pending diagnostics, #look-ahead) equal the model's; every terminal the real
+   add_trivia_to_terminal builds (kind, text, leading / trailing trivia text and length) and
+   every diagnostic the real consume_pending_skipped_diagnostics / create_and_report_missing
+   emits equal the model's; the final states agree; the model's side conditions [ops_ok] fail
+   exactly on the inputs where the impl-level oracle saw signature F1; and when they hold the
+   emitted terminals spell the source. ---- *)
+Record snap := mkSnap { sn_off : N; sn_cw : N; sn_ltw : N; sn_npend : N; sn_npd : N; sn_nlook : N }.
+Definition snap_of (s : pstate) : snap :=
+  mkSnap (p_offset s) (p_cur_w s) (p_last_tw s) (N.of_nat (length (p_pending s)))
+         (N.of_nat (length (p_pdiags s))) (N.of_nat (length (p_look s))).
+Definition snap_eqb (a b : snap) : bool :=
+  (sn_off a =? sn_off b) && (sn_cw a =? sn_cw b) && (sn_ltw a =? sn_ltw b)
+  && (sn_npend a =? sn_npend b) && (sn_npd a =? sn_npd b) && (sn_nlook a =? sn_nlook b).
+Record tobs := mkObs { ob_kind : tkind; ob_text : str; ob_lead : str; ob_trail : str;
+                       ob_nlead : N; ob_ntrail : N }.
+Inductive rkind := KOp (o : op) | KFinish.
+Record rop := mkR { r_kind : rkind; r_pre : snap; r_obs : option tobs;
+                    r_diags : option (list (N * N * N)) }.
+Definition oplog_case := (str * list rop * snap * bool)%type.
+
+Definition obs_matches (e : eterm) (o : tobs) : bool :=
+  tkind_eqb (e_kind e) (ob_kind o) && str_eqb (e_text e) (ob_text o)
+  && str_eqb (ptext (e_lead e)) (ob_lead o) && str_eqb (ptext (e_trail e)) (ob_trail o)
+  && (N.of_nat (length (e_lead e)) =? ob_nlead o) && (N.of_nat (length (e_trail e)) =? ob_ntrail o).
+Definition diag_eqb (a b : N * N * N) : bool :=
+  let '(k1, s1, e1) := a in let '(k2, s2, e2) := b in (k1 =? k2) && (s1 =? s2) && (e1 =? e2).
+Definition is_skip_nodes (k : rkind) : bool :=
+  match k with KOp (OSkipTakenNodes _) => true | _ => false end.
+
+(* first mismatch (step, code) ; final state ; conjunction of the side conditions *)
+Fixpoint replay (src : str) (s : pstate) (ok : bool) (i : N) (l : list rop)
+  : option (N * N) * pstate * bool :=
+  match l with
+  | [] => (None, s, ok)
+  | r :: l' =>
+      if negb (snap_eqb (snap_of s) (r_pre r)) then (Some (i, 1), s, ok)
+      else
+        let ok' := ok && match r_kind r with
+                         | KOp o => op_ok s o
+                         | KFinish => is_eof (peek_kind s)
+                         end in
+        let s' := match r_kind r with KOp o => run_op src s o | KFinish => finish_file src s end in
+        let n_e := length (p_emitted s) in
+        let obs_ok :=
+          match r_obs r with
+          | Some o =>
+              Nat.eqb (length (p_emitted s')) (S n_e)
+              && match last (map Some (p_emitted s')) None with
+                 | Some e => obs_matches e o
+                 | None => false
+                 end
+          | None => is_skip_nodes (r_kind r) || Nat.eqb (length (p_emitted s')) n_e
+          end in
+        let diags_ok :=
+          match r_diags r with
+          | Some ds => list_eqb diag_eqb (skipn (length (p_diags s)) (p_diags s')) ds
+          | None => true
+          end in
+        if negb obs_ok then (Some (i, 2), s', ok')
+        else if negb diags_ok then (Some (i, 3), s', ok')
+        else replay src s' ok' (i + 1) l'
+  end.
+
+Definition check_oplog (cs : list oplog_case) : list (N * N * N) :=
+  flat_map (fun '(k, (src, log, fin, f1)) =>
+    match replay src (parser_new src) true 0 log with
+    | (Some (i, code), _, _) => [(k, i, code)]
+    | (None, s, ok) =>
+        if negb (snap_eqb (snap_of s) fin) then [(k, 0, 4)]
+        else if p_panicked s then [(k, 0, 5)]
+        else if negb (Bool.eqb ok (negb f1)) then [(k, 0, 6)]
+        else if ok && negb (str_eqb (etext (p_emitted s)) src) then [(k, 0, 7)]
+        else []
+    end) (indexed 0 cs).
